@@ -124,6 +124,7 @@ Record GInv (g : gst) (cov : user -> chan -> oid -> Prop) : Prop := {
   g_mapped_nonempty : forall ch o, cmap g ch = Some o -> members (objs g o) <> [];
   g_owner : forall ch o, cmap g ch = Some o -> exists w, owner (objs g o) = Some w /\ In w (members (objs g o));
   g_nodup_members : forall o, NoDup (members (objs g o));
+  g_targets : forall o, targets (objs g o) = filter (allowed (racl (objs g o))) (members (objs g o));
   g_nodup_idx : forall u, NoDup (idx g u);
   g_nodup_reg : forall u, NoDup (reg g u);
   g_reg_cuser : forall c u, In c (reg g u) <-> cuser g c = Some u;
@@ -164,11 +165,11 @@ Qed.
 Lemma GInv_fresh_obj g g' cov o :
   GInv g cov ->
   next_oid g <= o -> next_oid g <= next_oid g' ->
-  (forall o', o' <> o -> objs g' o' = objs g o') -> members (objs g' o) = [] ->
+  (forall o', o' <> o -> objs g' o' = objs g o') -> members (objs g' o) = [] -> targets (objs g' o) = [] ->
   (forall ch, cmap g' ch = cmap g ch) -> idx g' = idx g -> reg g' = reg g -> cuser g' = cuser g -> wl g' = wl g ->
   GInv g' cov.
 Proof.
-  intros G Lo Ln Ho Hm Hc Hi Hr Hu Hw.
+  intros G Lo Ln Ho Hm Ht Hc Hi Hr Hu Hw.
   assert (Hmem : forall o', members (objs g' o') = members (objs g o')).
   { intros o'. destruct (N.eq_dec o' o) as [->|D]; [|now rewrite Ho].
     rewrite Hm. symmetry. apply (g_fresh _ _ G o Lo). }
@@ -183,6 +184,7 @@ Proof.
   - intros ch o' H. rewrite Hmem. rewrite Hc in H. eauto.
   - intros ch o' H. rewrite Hmem. rewrite Ho by eauto. rewrite Hc in H. eauto.
   - intros o'. rewrite Hmem. auto.
+  - intros o'. destruct (N.eq_dec o' o) as [->|D]; [|rewrite Ho; auto]. rewrite Ht, Hm. reflexivity.
   - intros u ch H. destruct (g_listed_member0 u ch H) as [o' [A B]]. exists o'. rewrite Hc, Hmem. auto.
   - intros u ch o' H. rewrite Hmem. rewrite Hc in H. eauto.
   - intros u ch o' H. rewrite Hmem. rewrite Hc in H. eauto.
@@ -201,11 +203,12 @@ Lemma GInv_insert g g' cov ch o n :
   (cmap g ch = Some o \/ (cmap g ch = None /\ forall ch', cmap g ch' <> Some o)) ->
   members (objs g' o) = add n (members (objs g o)) ->
   (exists w, owner (objs g' o) = Some w /\ In w (members (objs g' o))) ->
+  targets (objs g' o) = filter (allowed (racl (objs g' o))) (members (objs g' o)) ->
   idx g' n = add ch (idx g n) ->
   reg g n <> [] ->
   GInv g' cov.
 Proof.
-  intros G Hr Hu Ho Hw Hc Hi Ln Lo Hch Hold Hm Hown Hin Hreg.
+  intros G Hr Hu Ho Hw Hc Hi Ln Lo Hch Hold Hm Hown Htg Hin Hreg.
   assert (Hother : forall ch' o', ch' <> ch -> cmap g ch' = Some o' -> o' <> o).
   { intros ch' o' D H ->. destruct Hold as [H1|[_ H1]].
     - apply D. eapply g_inj; eauto.
@@ -247,6 +250,7 @@ Proof.
   - intros o'. destruct (N.eq_dec o' o) as [->|D].
     + rewrite Hm. apply NoDup_add. apply (g_nodup_members _ _ G).
     + rewrite Ho by auto. apply (g_nodup_members _ _ G).
+  - intros o'. destruct (N.eq_dec o' o) as [->|D]; auto. rewrite Ho by auto. apply (g_targets _ _ G).
   - intros u. destruct (N.eq_dec u n) as [->|D].
     + rewrite Hin. apply NoDup_add. apply (g_nodup_idx _ _ G).
     + rewrite Hi by auto. apply (g_nodup_idx _ _ G).
@@ -288,7 +292,7 @@ Proof.
   assert (Hkeep : cmap g' ch = Some o -> exists w, owner (objs g' o) = Some w /\ In w (members (objs g' o))).
   { intros H. destruct Hcase as [[_ H1]|[H1 _]]; [|congruence].
     destruct (g_owner _ _ G ch o Hch) as [w [A B]]. exists w.
-    rewrite Hmem. rewrite Hobj. cbn [owner obj_remove]. rewrite H1. split; auto.
+    rewrite Hmem. rewrite Hobj. cbn [owner obj_remove retarget]. rewrite H1. split; auto.
     apply In_del. split; auto. intros ->. unfold is_owner in H1. rewrite A, N.eqb_refl in H1. discriminate. }
   assert (Hback : forall u ch' o', cmap g' ch' = Some o' -> In u (members (objs g' o')) ->
                   cmap g ch' = Some o' /\ In u (members (objs g o')) /\ (u = n -> ch' <> ch)).
@@ -318,6 +322,7 @@ Proof.
   - intros o'. destruct (N.eq_dec o' o) as [->|D].
     + rewrite Hmem. apply NoDup_del. apply (g_nodup_members _ _ G).
     + rewrite Ho by auto. apply (g_nodup_members _ _ G).
+  - intros o'. destruct (N.eq_dec o' o) as [->|D]; [rewrite Hobj; reflexivity|]. rewrite Ho by auto. apply (g_targets _ _ G).
   - intros u. destruct (N.eq_dec u n) as [->|D].
     + rewrite Hin. apply NoDup_del. apply (g_nodup_idx _ _ G).
     + rewrite Hi by auto. apply (g_nodup_idx _ _ G).
@@ -473,6 +478,7 @@ Proof.
     destruct (is_owner (objs g o) me); cbn [negb]; [|left; eauto].
     destruct (isnil (reg g n)) eqn:Hr; [left; eauto|]. right. exists n. split; auto. right. now apply isnil_false. }
   destruct Hwho as [[e ->]|[n [-> Hn]]]; [left; eauto|].
+  destruct (allowed (jacl (objs g o)) n); cbn [negb]; [|left; eauto].
   destruct (mem n (members (objs g o))) eqn:Hm; [left; eauto|].
   destruct (c_max_clients cf <=? len (members (objs g o))); [left; eauto|].
   destruct (c_max_subs cf <=? len (idx g n)); [left; eauto|].
@@ -491,7 +497,7 @@ Lemma after_seg_done s t k c g' os hint :
 Proof. intros H. unfold after_seg, settle. rewrite H. reflexivity. Qed.
 
 Definition mk_new (g : gst) (ch : chan) : gst :=
-  set_cmap (set_next (put_obj g (next_oid g) {| members := []; owner := None |}) (next_oid g + 1))
+  set_cmap (set_next (put_obj g (next_oid g) empty_obj) (next_oid g + 1))
            (upd (cmap g) ch (Some (next_oid g))).
 
 (* g0 is the state join_locked starts from: g itself with the lock of the mapped object o free, or g with a new object *)
@@ -602,6 +608,7 @@ Section Cases.
         unfold mk_new; gs; try lia.
       + intros. now rewrite upd_neq.
       + now rewrite upd_eq.
+      + now rewrite upd_eq.
     - unfold mk_new. gs. lia.
     - intros ch' o'. rewrite Hcm. auto.
     - intros o' D. unfold mk_new at 1 2. gs. rewrite upd_neq by auto. repeat split; auto.
@@ -627,7 +634,7 @@ Section Cases.
     { rewrite <- (p_mem _ _ _ _ _ P). now apply mem_false. }
     assert (Hguest : created = false -> is_owner (obj_insert (objs g0 o) n) n = false).
     { intros E. destruct (p_false _ _ _ _ _ P E) as [E1 E2]. rewrite E1.
-      destruct (g_owner _ _ G0 ch o E2) as [w [A B]]. unfold is_owner, obj_insert. cbn [owner]. rewrite A.
+      destruct (g_owner _ _ G0 ch o E2) as [w [A B]]. unfold is_owner, obj_insert, retarget. cbn [owner]. rewrite A.
       apply N.eqb_neq. intros ->. auto. }
     assert (G : forall w, GInv (set_wl g2 (upd (wl g2) o w)) (covered s)).
     { intros w. subst g2. eapply GInv_insert with (ch := ch) (o := o) (n := n); [exact G0|..]; gs.
@@ -641,11 +648,12 @@ Section Cases.
       - apply (p_lt _ _ _ _ _ P).
       - exact Hcm.
       - apply (p_old _ _ _ _ _ P).
-      - rewrite upd_eq. cbn [members obj_insert]. now rewrite (p_mem _ _ _ _ _ P).
-      - rewrite upd_eq. cbn [members owner obj_insert]. destruct created.
+      - rewrite upd_eq. cbn [members obj_insert retarget]. now rewrite (p_mem _ _ _ _ _ P).
+      - rewrite upd_eq. cbn [members owner obj_insert retarget]. destruct created.
         + destruct (p_true _ _ _ _ _ P eq_refl) as [_ ->]. exists n. split; auto. apply In_add. auto.
         + destruct (p_false _ _ _ _ _ P eq_refl) as [E1 E2]. rewrite E1.
           destruct (g_owner _ _ G0 ch o E2) as [w' [A B]]. rewrite A. exists w'. split; auto. apply In_add. auto.
+      - rewrite upd_eq. reflexivity.
       - rewrite upd_eq. now rewrite (p_idx _ _ _ _ _ P).
       - exact Hreg. }
     assert (Hfr : forall w o', o' <> o ->
@@ -666,7 +674,7 @@ Section Cases.
       + rewrite Hh. discriminate.
       + split; [|split].
         * split; [apply ok_conn_with; subst g2; gs; apply (p_cuser _ _ _ _ _ P)|].
-          cbn [with_pc t_pc]. subst g2. gs. rewrite !upd_eq. cbn [members obj_insert]. repeat split; auto.
+          cbn [with_pc t_pc]. subst g2. gs. rewrite !upd_eq. cbn [members obj_insert retarget]. repeat split; auto.
           -- apply In_add. auto.
           -- intros E. destruct (p_true _ _ _ _ _ P E) as [-> _]. reflexivity.
         * cbn [with_pc t_pc]. intros ch1 o1 n1 id1 E. inversion E; subst. subst g2. gs. rewrite upd_eq. auto.
@@ -769,10 +777,10 @@ Proof.
   assert (Hconn : exists c, t_conn k = Some c).
   { destruct (t_conn k) as [c|] eqn:Hc; eauto. exfalso.
     destruct (i_tasks s HI t k Hin) as [Hok _]. rewrite Hc in Hok. destruct Hok as [_ Hok].
-    destruct (t_pc k) as [[]| | | | | | | | |]; cbn in Hpc, Hok; tauto. }
+    destruct (t_pc k) as [[]| | | | | | | | | | |]; cbn in Hpc, Hok; tauto. }
   destruct Hconn as [c Hc].
-  destruct (t_pc k) as [r|ch o ob id|ch o created n id| | | | | | |] eqn:Hp; cbn in Hpc; try contradiction.
-  - destruct r as [ch ob id| | | |]; try contradiction. cbn [seg]. unfold join_start.
+  destruct (t_pc k) as [r|ch o ob id|ch o created n id| | | | | | | | |] eqn:Hp; cbn in Hpc; try contradiction.
+  - destruct r as [ch ob id| | | | | |]; try contradiction. cbn [seg]. unfold join_start.
     destruct (cmap (cg s) ch) as [o|] eqn:Hm.
     + destruct (lock_free (cg s) o) eqn:Hf.
       * eapply join_locked_false; eauto. now rewrite Hp.
